@@ -29,7 +29,7 @@ def _get_rows(spec):
     return None
 
 
-def shrink_op(op, still_fails, max_tests=80):
+def shrink_op(op, still_fails, max_tests=80, shrink_rows=True):
     best = copy.deepcopy(op)
     tests = [0]
 
@@ -69,7 +69,7 @@ def shrink_op(op, still_fails, max_tests=80):
         if attempt(cand):
             best = cand
     # 3. rows
-    for name in sorted((best.get("data") or {}).keys()):
+    for name in (sorted((best.get("data") or {}).keys()) if shrink_rows else []):
         rows = _get_rows(best["data"][name])
         if not rows:
             continue
